@@ -530,7 +530,7 @@ class _Proxy:
         x = _np.asarray(x) if not isinstance(x, _np.ndarray) else x
         if x.dtype == object:
             assert axis is None
-            return builtins.sum(1 for v in x.ravel() if bool(v != 0.0))
+            return builtins.sum(1 for v in x.ravel() if (bool(v != 0.0) if isinstance(v, SymFloat) else bool(v)))
         return _np.count_nonzero(x, axis=axis, **kw)
 
     def any(self, x, *a, **k):
